@@ -173,6 +173,7 @@ func (r *simRun) subscribe(eng engine.Engine) {
 		}
 	})
 	ev.TargetDeath.Subscribe(func(e event.TargetDeath) {
+		r.rec(term.C("VDeathSeen", term.I(int64(e.Target)), term.I(int64(e.Killer))))
 		if i, ok := r.popSlot(&r.lDeath); ok {
 			r.execOps(r.script(i), e.Target, e.Killer)
 		}
